@@ -752,7 +752,7 @@ RULES_C14 = {
     "C14.Q3": "mutating a deep copy or an unpickled copy never affects the original",
 }
 
-C14_CLASSES = [Sink, Presence, Containers, Oneofs, Node, Scalars, Leaf]
+C14_CLASSES = [Sink, Presence, Containers, Oneofs, Node, Scalars, Leaf, schemas.Exotic]
 RECURSIVE_CLASSES = (Sink, Oneofs, Node)   # a message field leads back to the class itself
 
 
